@@ -351,9 +351,9 @@ def check_eval_and_spider(ctx):
     zero = any(isinstance(s, ast.Assign) and ast.unparse(s.value) == "numpy.zeros(dom @ cod)" for s in sp.body)
     ctx.ob("R09.4", TEN + ".Spider.__init__:delta", ok and zero, found=ast.unparse(loop)[:120] if loop else None,
            required="zeros(dom @ cod) with exactly the all-equal index entries set to 1", mod=TEN, node=sp, sig="spider-delta")
-    typ = next((s for s in sp.body if isinstance(s, ast.Assign) and isinstance(s.targets[0], ast.Tuple) and [ast.unparse(x) for x in s.targets[0].elts] == ["dom", "cod"]), None)
+    typ = shape.values_of(sp.body, ["dom", "cod"])
     ctx.need(typ is not None, "Spider.__init__ does not bind dom, cod")
-    shape.match(ctx, "R09.4", TEN + ".Spider.__init__:type", typ.value, "(dim ** n_legs_in, dim ** n_legs_out)", {}, mod=TEN, node=sp, sig="spider-type")
+    shape.match(ctx, "R09.4", TEN + ".Spider.__init__:type", typ, "(dim ** n_legs_in, dim ** n_legs_out)", {}, mod=TEN, node=sp, sig="spider-type")
 
 
 def check(ctx):
